@@ -37,7 +37,10 @@ Shapes == <<
   [s |-> "[t=>]",        nm |-> "t",        val |-> ">",    vt |-> "raw",  b |-> FALSE, im |-> FALSE],
   [s |-> "[!m=\"\"]",    nm |-> "m",        val |-> "",     vt |-> "dq",   b |-> FALSE, im |-> TRUE ],
   [s |-> "[t=\"*\"]",    nm |-> "t",        val |-> "*",    vt |-> "dq",   b |-> FALSE, im |-> FALSE],
-  [s |-> "[u=*2]",       nm |-> "u",        val |-> "*2",   vt |-> "raw",  b |-> FALSE, im |-> FALSE] >>
+  [s |-> "[u=*2]",       nm |-> "u",        val |-> "*2",   vt |-> "raw",  b |-> FALSE, im |-> FALSE],
+  [s |-> "[!g.]",        nm |-> "g",        val |-> NONE,   vt |-> "raw",  b |-> TRUE,  im |-> TRUE ],
+  [s |-> "[!g.=x]",      nm |-> "g",        val |-> "x",    vt |-> "raw",  b |-> TRUE,  im |-> TRUE ],
+  [s |-> "[h.=y]",       nm |-> "h",        val |-> "y",    vt |-> "raw",  b |-> TRUE,  im |-> FALSE] >>
 
 VARIABLES abbr, mentions, merged, reverse
 vars == <<abbr, mentions, merged, reverse>>
@@ -99,7 +102,7 @@ Booleans == {"contenteditable", "seamless", "async", "autofocus", "autoplay", "c
 MapName(syntax, nm) == IF syntax = "jsx" THEN (IF nm = "class" THEN "className" ELSE IF nm = "for" THEN "htmlFor" ELSE nm) ELSE nm
 UpperOf(s) == CASE s = "id" -> "ID" [] s = "class" -> "CLASS" [] s = "className" -> "CLASSNAME" [] s = "t" -> "T" [] s = "d" -> "D"
                 [] s = "m" -> "M" [] s = "disabled" -> "DISABLED" [] s = "u" -> "U" [] s = "e" -> "E" [] s = "for" -> "FOR"
-                [] s = "htmlFor" -> "HTMLFOR"
+                [] s = "htmlFor" -> "HTMLFOR" [] s = "g" -> "G" [] s = "h" -> "H"
 EmitOne(a, row) ==       \* <<>> when the attribute is dropped, else << [n, q, v] >>; q = NONE: printed without "=" part
     LET hasVal == a.val # NONE /\ a.val # ""
         nm0 == MapName(row.syntax, a.nm)
